@@ -9,6 +9,7 @@ import (
 	"math"
 	"net/http"
 	"os"
+	"sort"
 	"strings"
 	"sync"
 	"time"
@@ -37,6 +38,13 @@ type cfg struct {
 	Always int
 	// Parallel: the flush requests are issued together (one per aggregator of one flush) instead of one after the other
 	Parallel bool `json:",omitempty"`
+	// Concurrent: every flush request is issued by a thread of its own, the way the aggregators of one flush call the backend
+	// side by side (the -race pass of this configuration finds state the backend shares between such calls)
+	Concurrent bool `json:",omitempty"`
+	// LongNames: request q sends counters named q<q>c<i> padded to 800 characters, so that a statsd relay datagram
+	// overflows after every line (the relay then hands the datagram over in the middle of its flush); everything the
+	// socket received is taken apart afterwards: each of those names exactly once
+	LongNames bool `json:",omitempty"`
 	// LateCancel: the cancellation may also come after the first LateCancel clock steps (retry / reconnect timers firing)
 	LateCancel int `json:",omitempty"`
 	// MaxStreams: the sender recycles its connection after that many streams (the constant is 100; 0 leaves it alone)
@@ -77,6 +85,12 @@ func (c cfg) suffix() string {
 	if c.MaxStreams > 0 {
 		s += fmt.Sprintf("-maxstreams%d", c.MaxStreams)
 	}
+	if c.Concurrent {
+		s += "-concurrent"
+	}
+	if c.LongNames {
+		s += "-longnames"
+	}
 	return s
 }
 
@@ -91,6 +105,7 @@ type run struct {
 	cbs         []cbRec
 	failsLeft   int
 	faults      []string
+	issuedBy    []bool
 	issued      int
 	cancelled   bool
 	refused     bool
@@ -109,6 +124,28 @@ func (r *run) fail(k, m string) {
 	}
 }
 
+func shortNames(m map[string]int) []string {
+	var o []string
+	for k, n := range m {
+		if len(k) > 12 {
+			k = k[:12]
+		}
+		o = append(o, fmt.Sprintf("%s x%d", k, n))
+	}
+	sort.Strings(o)
+	return o
+}
+
+func (r *run) countIssued() int {
+	r.issued = 0
+	for _, b := range r.issuedBy {
+		if b {
+			r.issued++
+		}
+	}
+	return r.issued
+}
+
 func (r *run) fault(n int, label string) int {
 	if r.failsLeft <= 0 {
 		return 0
@@ -125,6 +162,18 @@ func mkMapHist(n int) *gostatsd.MetricMap {
 	mm := mkMap(n)
 	mm.Timers["th"] = map[string]gostatsd.Timer{"gsd_histogram:1_5,s:h": {Tags: gostatsd.Tags{"gsd_histogram:1_5"}, Source: "h", Timestamp: 5, Values: []float64{0.5, 3},
 		Histogram: map[gostatsd.HistogramThreshold]int{1: 1, 5: 2, gostatsd.HistogramThreshold(math.Inf(1)): 2}}}
+	return mm
+}
+
+func longName(q, i int) string {
+	return fmt.Sprintf("q%dc%d.", q, i) + strings.Repeat("x", 800)
+}
+
+func mkMapLong(q, n int) *gostatsd.MetricMap {
+	mm := gostatsd.NewMetricMap(false)
+	for i := 0; i < n; i++ {
+		mm.Receive(&gostatsd.Metric{Name: longName(q, i), Type: gostatsd.COUNTER, Value: float64(i + 1), Rate: 1, Source: "h", Tags: gostatsd.Tags{"k:v"}, Timestamp: 5})
+	}
 	return mm
 }
 
@@ -245,6 +294,7 @@ func body(c cfg, r *run) func(*vsched.Exec) {
 		if b.Run != nil {
 			vsched.GoNamed("backend.Run", func() { b.Run(ctx) })
 		}
+		r.issuedBy = make([]bool, c.Requests)
 		done := make(chan int, c.Requests+4)
 		overflow := c.Always == 4 && c.Cancel
 		var lastCancel context.CancelFunc
@@ -261,13 +311,18 @@ func body(c cfg, r *run) func(*vsched.Exec) {
 				vsched.Quiesce("backend-retried")
 			}
 		}
-		vsched.GoNamed("flusher", func() {
-			for q := 0; q < c.Requests; q++ {
+		issueFn := func(from, to int) {
+			for q := from; q < to; q++ {
 				q := q
-				r.issued++
+				// (no lock, no atomic here: a synchronisation between the issuing threads ahead of their calls would order
+				// the calls for the race detector of the free-running pass and hide what they share)
+				r.issuedBy[q] = true
 				mm := mkMap(c.Series)
 				if c.Hist {
 					mm = mkMapHist(c.Series)
+				}
+				if c.LongNames {
+					mm = mkMapLong(q, c.Series)
 				}
 				qctx := ctx
 				if overflow && q == c.Requests-1 {
@@ -287,7 +342,9 @@ func body(c cfg, r *run) func(*vsched.Exec) {
 						cbMu.Unlock()
 						return
 					}
+					cbMu.Lock()
 					r.cbs = append(r.cbs, cbRec{q, append([]error{}, errs...)})
+					cbMu.Unlock()
 					vsched.Send(done, q)
 				})
 				if !c.Parallel {
@@ -295,18 +352,37 @@ func body(c cfg, r *run) func(*vsched.Exec) {
 				}
 			}
 			if c.Parallel && !overflow {
-				for q := 0; q < c.Requests; q++ {
+				for q := from; q < to; q++ {
 					vsched.Recv(done) // ... but the aggregators of one flush call the backend side by side
 				}
 			}
-		})
+		}
+		if c.Concurrent {
+			// in the free-running -race pass the calls start at the same instant (with several processors), so that they
+			// really overlap: one call finishing before the other begins is ordered through the buffer pool they share
+			start := make(chan struct{})
+			for q := 0; q < c.Requests; q++ {
+				q := q
+				vsched.GoNamed(fmt.Sprint("aggregator", q), func() {
+					if vsched.Free() {
+						<-start
+					}
+					issueFn(q, q+1)
+				})
+			}
+			if vsched.Free() {
+				close(start)
+			}
+		} else {
+			vsched.GoNamed("flusher", func() { issueFn(0, c.Requests) })
+		}
 		segObj := new(int)
 		segment := 0
 		if c.Cancel && c.Always != 4 {
 			vsched.GoNamed("canceller", func() {
 				// time passes only when nothing else can move, so a cancellation that is to meet a retry or reconnect timer
 				// has to wait for its turn: it comes at any point of the stretch between two clock steps that it picks
-				if seg := vsched.Choose(c.cancelSegments(), "cancel-in-stretch"); seg > 0 {
+				if seg := vsched.Choose(c.cancelSegments(), "cancel-in-stretch"); seg > 0 && !vsched.Free() { // (a free run has no stretches)
 					vsched.SyncOp(segObj, false, "wait-for-stretch", func() bool { return segment >= seg })
 				}
 				r.cancelled = true
@@ -324,7 +400,7 @@ func body(c cfg, r *run) func(*vsched.Exec) {
 				// everything that fits is queued, one request is still waiting for room: that request is cancelled
 				phase, r.cancelled = 1, true
 				if lastCancel == nil {
-					r.overflowBad = fmt.Sprintf("only %d of %d requests were issued at quiescence", r.issued, c.Requests)
+					r.overflowBad = fmt.Sprintf("only %d of %d requests were issued at quiescence", r.countIssued(), c.Requests)
 					break
 				}
 				vsched.Cancel(lastCancel)
@@ -386,12 +462,38 @@ func check(c cfg, r *run, outcomes map[string]struct{}) func(*vsched.Exec, vsche
 		for _, cb := range r.cbs {
 			per[cb.req]++
 		}
-		for q := 0; q < r.issued; q++ {
+		r.countIssued()
+		for q := 0; q < len(r.issuedBy); q++ {
+			if !r.issuedBy[q] {
+				continue
+			}
 			if per[q] > 1 {
 				return "callback-twice", fmt.Sprintf("%s: flush request %d got %d completion callbacks (faults %v, cancelled %v)", c.Kind, q, per[q], r.faults, r.cancelled)
 			}
 			if per[q] == 0 {
 				return "callback-missing", fmt.Sprintf("%s: flush request %d was never completed (faults %v, cancelled %v, timers pending %d)", c.Kind, q, r.faults, r.cancelled, r.mock.Len())
+			}
+		}
+		if c.LongNames && len(r.faults) == 0 && !r.cancelled {
+			seen := map[string]int{}
+			for _, w := range r.b.Env.Net.Writes {
+				for _, ln := range strings.Split(string(w), "\n") {
+					if ln == "" {
+						continue
+					}
+					i := strings.IndexByte(ln, ':')
+					if i < 0 {
+						return "relay-line-malformed", fmt.Sprintf("%s: the socket received a line without a value separator: %.60q...", c.Kind, ln)
+					}
+					seen[ln[:i]]++
+				}
+			}
+			for q := 0; q < c.Requests; q++ {
+				for i := 0; i < c.Series; i++ {
+					if n := seen[longName(q, i)]; n != 1 {
+						return "relay-content", fmt.Sprintf("%s: counter q%dc%d of flush request %d was written %d times (all names seen, shortened: %v)", c.Kind, q, i, q, n, shortNames(seen))
+					}
+				}
 			}
 		}
 		if r.issued < c.Requests {
@@ -484,6 +586,17 @@ func configs() []cfg {
 		if vrt.Thorough() {
 			cs = append(cs, cfg{Kind: k, Series: 2, Requests: 2, Failures: 2, Cancel: true})
 		}
+	}
+	// the aggregators of one flush call the backend at the same time (two requests, each from a thread of its own)
+	conc := []string{"graphite-tags", "statsdaemon-udp", "statsdaemon-tcp", "datadog", "influxdb1", "newrelic-infra", "cloudwatch", "stdout"}
+	if vrt.Thorough() {
+		conc = append(conc, "otlp-gauge") // several hundred thousand interleavings
+	}
+	for _, k := range conc {
+		cs = append(cs, cfg{Kind: k, Series: 1, Batch: 2, Requests: 2, Elapsed: 3 * time.Second, MaxReq: 2, Concurrent: true})
+	}
+	for _, k := range []string{"statsdaemon-udp", "statsdaemon-tcp"} {
+		cs = append(cs, cfg{Kind: k, Series: 2, Requests: 2, Concurrent: true, LongNames: true})
 	}
 	// a peer that stops reading (write deadline), after a refused connection during which the request was taken up
 	cs = append(cs, cfg{Kind: "graphite-tags", Series: 1, Requests: 1, Failures: 2, Stall: true}, cfg{Kind: "statsdaemon-tcp", Series: 1, Requests: 2, Failures: 2, Stall: true})
